@@ -12,7 +12,9 @@ META = dict(
          "timeout T = 10 s. Two connections are accepted at time 0: N never sends anything; K sends a request in fragments "
          "(request line split, head completed only by a later fragment, body split) - request variants HTTP/1.1 keep-alive, "
          "HTTP/1.1 'Connection: close', HTTP/1.0, HTTP/1.0 'Connection: keep-alive'; persistent variants send a second request "
-         "afterwards. Before each of H service calls (H = 10 quick / 12 thorough) the environment chooses: K sends its next "
+         "afterwards; variant 'ka11+close' sends a keep-alive request and then a 'Connection: close' request whose response is "
+         "not written in the pass that parses its head (app /defer yields an empty piece first; POST /echo whose body arrives a "
+         "pass after its head), so that a connection which was persistent for longer than T becomes non-persistent again (one deviation less). Before each of H service calls (H = 10 quick / 12 thorough) the environment chooses: K sends its next "
          "fragment (default while fragments remain) / nothing / clock +0.4T / +0.6T / +T; every non-default choice is one "
          "deviation; all schedules with <= 4 deviations (quick) / <= 5 (thorough). In 8 further slow-reader "
          "configurations (Valet, non-persistent variants only) K reads slowly: every send of the server to K is accepted only "
@@ -37,6 +39,7 @@ ADV = (("+0.4T", 4.0), ("+0.6T", 6.0), ("+T", 10.0))
 TIERS = dict(quick=dict(H=10, bound=4), thorough=dict(H=12, bound=5))
 VARIANTS = ("ka11", "close11", "http10", "ka10")
 PERSISTENT = ("ka11", "ka10")
+ENDING = "ka11+close"        # a keep-alive request, then a 'Connection: close' request on the same connection
 DATE = "Thu, 01 Jan 2026 00:00:00 GMT"
 
 
@@ -49,6 +52,13 @@ def app(environ, start):
             for i in range(4):
                 yield b"piece%d;" % i
         return gen()
+    if path == "/defer":
+        start("200 OK", [("Content-Type", "text/plain"), ("Date", DATE)])
+
+        def later():
+            yield b""           # not ready in the pass that parsed the request: nothing is written
+            yield b"deferred"
+        return later()
     if path == "/echo":
         body = environ["wsgi.input"].read()
         start("200 OK", [("Content-Type", "text/plain"), ("Date", DATE), ("Content-Length", str(len(body)))])
@@ -58,7 +68,20 @@ def app(environ, start):
 
 
 def fragments(variant, kind):
-    """-> (list of fragments, number of bytes after which the head of the first request is complete)"""
+    """-> (list of fragments, number of bytes after which the head of the first request is complete,
+    number of bytes after which the head of a persistence-ending second request is complete or None)"""
+    if variant == ENDING:
+        first = "echo" if kind == "echo" else "fixed"
+        frs, n, _ = fragments("ka11", first)
+        frs = frs[:4 if first == "echo" else 3]
+        total = sum(len(f) for f in frs)
+        if kind == "echo":
+            head2 = b"POST /echo HTTP/1.1\r\nHost: h\r\nConnection: close\r\nContent-Length: 4\r\n\r\n"
+            frs += [head2[:10], head2[10:], b"ab", b"cd"]       # head complete one pass before the body
+        else:
+            head2 = ("GET /%s HTTP/1.1\r\nHost: h\r\nConnection: close\r\n\r\n" % kind).encode()
+            frs += [head2[:10], head2[10:]]
+        return frs, n, total + len(head2)
     version = "HTTP/1.0" if variant in ("http10", "ka10") else "HTTP/1.1"
     extra = {"close11": "Connection: close\r\n", "ka10": "Connection: keep-alive\r\n"}.get(variant, "")
     if kind == "echo":
@@ -76,7 +99,7 @@ def fragments(variant, kind):
     if variant in PERSISTENT:
         r = head + body
         frs += [r[:10], r[10:]]
-    return frs, n
+    return frs, n, None
 
 
 def build(server, scheme, fn, ck):
@@ -118,6 +141,7 @@ class Conn:
         self.last = None         # clock of the last service call in which bytes moved (or of the accept)
         self.moved = (0, 0)
         self.persisted_at = None
+        self.ended = False       # a later request ended the persistence
         self.removed = False
 
 
@@ -129,7 +153,7 @@ def execute(ch, server, scheme, variant, kind, slow, H, part, states):
     FSM.net = fn
     ck = net.clock()
     srv = build(server, scheme, fn, ck)
-    frs, headlen = fragments(variant, kind)
+    frs, headlen, endlen = fragments(variant, kind)
     conns = []
     for name in ("N", "K"):
         s = fn.socket(name=name)
@@ -193,8 +217,12 @@ def execute(ch, server, scheme, variant, kind, slow, H, part, states):
             if m != c.moved:
                 c.moved = m
                 c.last = now
-            if c is k and c.persisted_at is None and variant in PERSISTENT and m[1] >= headlen:
+            if c is k and c.persisted_at is None and not c.ended and (variant in PERSISTENT or variant == ENDING) \
+                    and m[1] >= headlen:
                 c.persisted_at = now
+            if c is k and endlen is not None and not c.ended and m[1] >= endlen:
+                c.ended = True            # head of the 'Connection: close' request received: persistence is over,
+                c.persisted_at = None     # from the next pass on the plain idle rule applies again
         ix = srv.servant.ixes.get(k.ca)
         st = (server, scheme, variant, kind, slow, len(sched), k.removed, neighbour.removed, k.persisted_at is not None,
               None if ix is None else (round(ix.timer.remaining, 3), ix.timeout, len(ix.txes), len(ix.rxbs)))
@@ -241,7 +269,7 @@ def work(cfg):
     idx, server, scheme, variant, kind, slow = cfg
     hh.setup()
     tier = TIERS[core.TIER]
-    bound = tier["bound"] - 1 if slow else tier["bound"]
+    bound = tier["bound"] - 1 if (slow or variant == ENDING) else tier["bound"]
     p = core.Part()
     states = set()
     best = {}
@@ -288,6 +316,11 @@ def configs():
                     if variant == "ka10" and kind != "echo":
                         continue          # HTTP/1.0 keep-alive differs from ka11 only in the head: echo covers it
                     cfgs.append((len(cfgs), server, scheme, variant, kind, False))
+    # persistence ended by a later request whose response is not written in the pass that parsed its head
+    for server in ("Valet", "Porter"):
+        for scheme in ("http", "https"):
+            for kind in (("defer", "echo") if server == "Valet" else ("echo",)):
+                cfgs.append((len(cfgs), server, scheme, ENDING, kind, False))
     # slow reader: non-persistent exchanges whose response needs many partial sends
     # (Valet only: Porter removes a non-persistent connection in the pass that queued the response)
     for scheme in ("http", "https"):
@@ -318,7 +351,9 @@ def run():
         "the idle period of a connection starts when the server accepts it and restarts in every service call in which the "
         "server-side socket sent or received at least one byte; time only advances between service calls",
         "'kept alive by HTTP persistence' = the complete head of an HTTP/1.1 request without 'Connection: close', or of an "
-        "HTTP/1.0 request with 'Connection: keep-alive', was received in an earlier service call",
+        "HTTP/1.0 request with 'Connection: keep-alive', was received in an earlier service call - until the complete head of a "
+        "later 'Connection: close' request has been received; from the next service call on the plain idle rule (no drop "
+        "unless no byte moved for >= T) applies again",
         "only the 'only if' direction is judged: keeping an idle connection longer than T is not a violation",
         "states = distinct (step, connection flags, timer remaining, buffer lengths) snapshots; transitions = service calls; "
         "traces = executions judged",
